@@ -453,6 +453,23 @@ def report(prop, tier, seed, results, known, assumed, t0, verbose):
                        "note": "found by the bounded refutation search after " + ", ".join(sorted(failing)[:3]) + " could not be discharged"},
                       open(fn, "w"), indent=1, default=str)
             violations.append((x["obligation"], fn, True))
+        # the only undischarged obligations are loop invariants the solver could not decide (no counterpart once loops are unrolled), and
+        # the bounded search -- the unrolled program against the same callee contracts -- has a counter-model of one of the function's
+        # own postconditions that the native replay can neither show nor contradict (ghost events have no native counterpart): that
+        # postcondition is reported as the violation, without an input
+        only_loops = all(o["kind"] in ("loopinv", "budget") and o["status"] == "unknown" for obs_ in failing.values() for o in obs_)
+        inconclusive_posts = [x for x in refs if x.get("kind") == "post" and x["obligation"] not in failing and x["replay"].get("reproduced") is None
+                              and x.get("model")]
+        if only_loops and not extra_reproduced and inconclusive_posts:
+            x = inconclusive_posts[0]
+            fn = os.path.join(ROOT, "replays", prop, _safe_name(x["obligation"] + ".json"))
+            json.dump({"property": prop, "function": r["key"], "obligation": x["obligation"], "status": "refuted",
+                       "verifier_output": [], "refutation_search": inconclusive_posts[:4],
+                       "note": "counter-model of the unrolled function (bounded refutation search) after " + ", ".join(sorted(failing)[:3])
+                               + " could not be decided; the native replay is inconclusive: " + str(x["replay"].get("detail"))},
+                      open(fn, "w"), indent=1, default=str)
+            violations.append((x["obligation"], fn, False))
+            continue
         for name, obs in failing.items():
             if extra_reproduced and all(o["kind"] in ("loopinv", "budget") for o in obs) and not any(x["obligation"] == name for x in refs):
                 continue  # explained by the reproduced failure above
